@@ -99,6 +99,7 @@ func init() {
 		in.event("flate.NewReader")
 		return in.ghostIface("flatereader", map[string]interface{}{"src": a[0]})
 	}
+	ghostMethods["flatereader.Close"] = func(in *Interp, self *Object, a []Value) Value { return nilError() }
 	models["io.LimitReader"] = func(in *Interp, fn *ssa.Function, a []Value) Value {
 		n := a[1].(*smt.Term)
 		in.event("io.LimitReader n=%s", n.S)
@@ -107,6 +108,14 @@ func init() {
 	readAll := func(in *Interp, fn *ssa.Function, a []Value) Value {
 		g := ghostOf(a[0])
 		var limit *smt.Term
+		if g == nil {
+			// &io.LimitedReader{R: r, N: n} used directly
+			if ifc, ok := a[0].(*Iface); ok && ifc != nil && ifc.T != nil && types.TypeString(ifc.T, nil) == "*io.LimitedReader" {
+				lv := in.load(ifc.V.(*Ptr)).(*StructV)
+				limit = lv.F[1].(*smt.Term)
+				g = ghostOf(lv.F[0])
+			}
+		}
 		if ghostKind(g) == "limitreader" {
 			limit = g.Ghost["n"].(*smt.Term)
 			g = ghostOf(g.Ghost["inner"].(Value))
